@@ -664,6 +664,9 @@ def check_case(fmt, cfg, acs, printed, res, shape=None, cs=None, writer=None, hi
             if mine != theirs:
                 res["disagreements"].append(dict(base, stream="writer-inline-choice", impl=repr(mine)[:300], model=repr(theirs)[:300]))
                 return "dis"
+            # audit w7: from here on the expectation of every element IS the Coq spec's layout (inline_layouts), so the loop below
+            # compares the inline attributes printed by pycaption with request 1320 directly
+            exp_elems = [(e[0], th if th is not None else e[1], e[2], e[3], e[4]) for e, th in zip(exp_elems, theirs)]
         got = [el for el in elems if el[0] != "span" or el[1] is not None or el[2]]
         if [(e[0], e[2], e[3]) for e in exp_elems] != [(e[0], e[3], e[4]) for e in got]:
             res["violations"].append(dict(base, kind="dfxp-elements", impl_obs=repr([(e[0], e[1]) for e in got])[:400],
